@@ -8,6 +8,7 @@ from ..cfg import cfg_of, within
 from ..dataflow import derives, derives_must, expand, local_defs, reaching
 from ..loader import enclosing_stmt
 from .c07 import popped_keys, STRUCTURAL
+from .roles import spec_field, loops_over_field
 
 EXPL = (
     'Order, guards and pairing inside the structural handlers of '
@@ -42,9 +43,22 @@ def check(ck):
     r09_10(ck)
     r09_11(ck)
     r09_12(ck)
+    from . import c05, c10
+    ck.shared('R09.14', 'what a structural update creates, moves or removes '
+              'is handed to the engine as it is: moved and generated steps '
+              'keep their flow entry (an empty one included), the views are '
+              'rebuilt when any update of a batch was structural, and the '
+              'front entries of removed processes are dropped - nothing '
+              'that left the hierarchy changes a node afterwards',
+              c05.r05_6, c07_r07_2, c10.r10_12)
     from . import helpers as H
     ck.rule('R09.13', 'dict_to_paths, with which inserted and divided subtrees are reported, keeps its recursion skeleton')
     H.dict_to_paths_shape(ck, 'R09.13')
+
+
+def c07_r07_2(ck):
+    from . import c07
+    c07.r07_2(ck)
 
 
 def _stmt(x):
@@ -221,7 +235,10 @@ def r09_3(ck):
                 if ds else c
         else:
             blame = c
-        ck.require(norm or disc, 'R09.3', f, blame,
+        # (the construct is named by its role; the statement is in the
+        # message position)
+        ck.require(norm or disc, 'R09.3', f,
+                   'path handed to _delete_path, built from the key',
                    'the delete key is normalised to a path (a tuple names a '
                    'path, a string a child)',
                    "Store.delete wraps its key unconditionally: the "
@@ -317,7 +334,8 @@ def r09_4(ck):
                 has_here = derives(
                     f.node, arg, lambda x: (isinstance(x, ast.Call) and
                                             A.call_name(x) == 'path_for')
-                    or A.is_name(x, 'here'), at=at)
+                    or (q == 'Store.delete' and A.is_name(
+                        x, A.params_of(f.node)[2])), at=at)
                 if has_p and has_here:
                     apps.append(cfg.node(a))
             ok = bool(apps) and cfg.must_pass(
@@ -379,7 +397,7 @@ def r09_5(ck):
             loop = p
             break
         p = p._parent
-    ck.require(loop is not None and 'daughters' in A.unparse(loop.iter),
+    ck.require(loop is not None and spec_field(f.node, loop.iter, 'daughters', loop),
                'R09.5', f, g, 'generate runs once per listed daughter',
                'daughter generation is not inside the loop over the listed '
                'daughters', g)
